@@ -603,6 +603,27 @@ pub fn check_state(p: &Props, ops: &[Op], info: &PlanInfo, obs: &Obs, last_only:
         }
     }
     if p.c12 {
+        if let Some((ok, runs, lay, again)) = &obs.after_rejected_conversion {
+            if !ok {
+                out.push(v("C12", "dispatcher-broken-after-rejected-conversion", "the dispatcher handed back by a rejected try_into_sendable panicked in dispatch".to_string()));
+            } else {
+                for n in info.nodes.iter().filter(|n| !info.rejected.contains(&n.id)) {
+                    let exp = expected_runs(info, n.id, 1, 1);
+                    if runs[n.id] != exp {
+                        let sig = if n.kind == Kind::Tl { "tl-lost-by-rejected-conversion" } else { "system-lost-by-rejected-conversion" };
+                        out.push(v("C12", sig, format!("try_into_sendable was (rightly) rejected; the dispatcher handed back ran system {} {} times in one dispatch, expected {}: {}", n.id, runs[n.id], exp, l.short())));
+                    }
+                }
+                match lay {
+                    Some(l2) if l2.stages == l.stages && l2.tl == l.tl => {}
+                    Some(l2) => out.push(v("C12", "tl-lost-by-rejected-conversion", format!("the dispatcher handed back by a rejected conversion has layout {} (thread-local {:?}), before the attempt {} (thread-local {:?})", l2.short(), l2.tl, l.short(), l.tl))),
+                    None => {}
+                }
+            }
+            if *again {
+                out.push(v("C12", "sendable-with-tl", "a second try_into_sendable on the dispatcher handed back by a rejected one succeeded although thread-local systems were registered".to_string()));
+            }
+        }
         if let Some(rr) = &obs.runs_by_run_now {
             for n in info.nodes.iter().filter(|n| n.kind == Kind::Tl && n.parent.is_none() && !info.rejected.contains(&n.id)) {
                 if rr[n.id] != 1 {
